@@ -23,7 +23,9 @@ META = {
                  "TypeAliasType('string'), Final, ClassVar, 'string reference', ForwardRef(module=..)} that Python permits; positions root, "
                  "list[.], dict[str, .], tuple[., int], Union[., None], dataclass field; 10 inputs per base (valid wire forms, text, "
                  "wrong-typed, None) through unmarshaller, marshaller and codec; string references issued from the defining module, "
-                 "from another module with a qualified name and from nested call depth 3 - all choice variables; plus, per wrapper kind and "
+                 "from another module with a qualified name and from nested call depth 3 - all choice variables; 15 reference *expressions* "
+                 "(nested class 'Outer.Inner', 'A | B', 'A | None', 'list[Outer.Inner]', 'tuple[A, int]', fully qualified forms issued from "
+                 "another module) x {unmarshaller, marshaller, codec} x 11-12 inputs against the evaluated type; classes whose recursion is closed through a NewType / TypeAliasType (Optional and list edges) against the class that names itself, wire trees of depth <= 2; plus, per wrapper kind and "
                  "base, the two root unmarshallers on a symbolic x in J depth 1 (E1)",
         "thorough": "chains of length 3 (seed-rotated half); J depth 2",
     },
@@ -224,6 +226,131 @@ def make_origin(base, timeout):
     return Cond(f"origin/{base}", [("c0", int), ("c1", int), ("c2", int)], body, mode="E3", timeout=timeout)
 
 
+def _refexprs():
+    W = wrapmod
+    Q = W.__name__
+    local = {"WOuter.WInner": W.WOuter.WInner, "list[WOuter.WInner]": list[W.WOuter.WInner], "dict[str, WOuter.WInner]": dict[str, W.WOuter.WInner],
+             "WPoint | None": W.WPoint | None, "WPoint | WOther": W.WPoint | W.WOther, "tuple[WPoint, int]": tuple[W.WPoint, int],
+             "list[WPoint]": list[W.WPoint], "WOuter": W.WOuter, "Point | None": W.Point | None, "list[Point]": list[W.Point]}
+    qual = {f"{Q}.WOuter.WInner": W.WOuter.WInner, f"{Q}.WPoint | {Q}.WOther": W.WPoint | W.WOther, f"{Q}.WPoint | None": W.WPoint | None,
+            f"{Q}.WPoint": W.WPoint, f"{Q}.WOuter": W.WOuter}
+    return [("here", r, T) for r, T in local.items()] + [("qualified", r, T) for r, T in qual.items()]
+
+
+def make_refexpr(timeout):
+    """String references that are *expressions* (nested classes, unions, subscripted generics over referenced names),
+    issued from the defining module and - fully qualified - from another module; against the evaluated type."""
+    W = wrapmod
+    wire = [{"x": 1, "y": 2}, {"x": "1"}, {"name": "n"}, None, [{"x": 1}], {"k": {"x": "3"}}, [{"x": 1, "y": 2}, 1], "abc", 7,
+            {"inner": {"x": "1"}}, '{"x": 1, "y": 2}', [{"x": 1, "y": "2"}]]
+    vals = [W.WPoint(1, 2), W.WOther("n"), W.WOuter.WInner(1), None, [W.WOuter.WInner(1)], {"k": W.WOuter.WInner(2)}, (W.WPoint(1, 2), 3),
+            [W.WPoint(1, 2)], W.WOuter(W.WOuter.WInner(1)), M.Point(1, 2), [M.Point(1, 2)]]
+
+    def body(c0: int, c1: int, c2: int):
+        from typelib import codecs, marshals, unmarshals
+
+        from vlib import caches
+
+        ch = Chooser((c0, c1, c2))
+        with NoTracing():
+            exprs = _refexprs()
+            origin, ref, T = exprs[ch.pick(len(exprs))]
+            which = ch.pick(3)
+            caches.clear_all()
+            fn = (unmarshals.unmarshaller, marshals.marshaller, codecs.codec)[which]
+            site = origin + ":" + ("nested_class" if "WInner" in ref else "union" if "|" in ref else "subscripted" if "[" in ref else "class")
+            reached()
+            try:
+                R = wrapmod.call_here(fn, ref) if origin == "here" else othermod.call_qualified(fn, ref)
+            except Exception as e:  # noqa: BLE001
+                return ("reference_unresolved:" + type(e).__name__, site, _d(ref, e))
+            RT = fn(T)
+            if which == 0:
+                x = wire[ch.pick(len(wire))]
+                a, b = outcome(R, x), outcome(RT, x)
+            elif which == 1:
+                x = vals[ch.pick(len(vals))]
+                a, b = outcome(R, x), outcome(RT, x)
+            else:
+                x = vals[ch.pick(len(vals))]
+                a, b = outcome(R.encode, x), outcome(RT.encode, x)
+                if a == b and a[0]:
+                    a, b = outcome(R.decode, a[1]), outcome(RT.decode, b[1])
+            if a[0] != b[0] or (a[0] and not deep_same(a[1], b[1])) or (not a[0] and a[1] != b[1]):
+                return ("reference_behaves_differently", site, _d(ref, x, a, b))
+        return None
+
+    return Cond("refexpr", [("c0", int), ("c1", int), ("c2", int)], body, mode="E3", timeout=timeout)
+
+
+_RC = [0]
+
+
+def _rec_wire(ch, depth, with_parent=True):
+    _RC[0] += 1
+    w = {"v": str(_RC[0])}
+    if depth > 0:
+        n = ch.pick(3 if depth > 1 else 2)
+        if n:
+            w["kids"] = [_rec_wire(ch, depth - 1, with_parent) for _ in range(n)]
+        if with_parent and ch.flag():
+            w["parent"] = _rec_wire(ch, depth - 1, with_parent)
+    return w
+
+
+def _levels(v, cls, out):
+    out.append(type(v) is cls)
+    for k in getattr(v, "kids", []) or []:
+        _levels(k, cls, out)
+    if getattr(v, "parent", None) is not None:
+        _levels(v.parent, cls, out)
+
+
+def make_recwrap(timeout):
+    """A class whose recursion is closed *through* a NewType / TypeAliasType behaves like the one that names itself."""
+
+    def body(**p):
+        import typelib
+
+        from vlib import caches
+
+        ch = Chooser([p[f"c{i}"] for i in range(20)])
+        with NoTracing():
+            k = ch.pick(3)
+            cls = (wrapmod.RecNT, wrapmod.RecTA, wrapmod.RecKids)[k]
+            _RC[0] = 0
+            wire = _rec_wire(ch, 2, with_parent=k != 2)
+            caches.clear_all()
+            reached()
+            a = attempt(typelib.unmarshal, cls, wire)
+            b = attempt(typelib.unmarshal, wrapmod.RecPlain, wire)
+            site = cls.__name__
+            if not b[0]:
+                return None
+            if not a[0]:
+                return ("wrapped_recursion_rejects", site, _d(wire, a[1]))
+            lv = []
+            _levels(a[1], cls, lv)
+            if not all(lv):
+                return ("wrapped_recursion_level_unconverted", site, _d(wire, a[1]))
+            ma, mb = attempt(typelib.marshal, a[1]), attempt(typelib.marshal, b[1])
+            if not ma[0]:
+                return ("wrapped_recursion_marshal_raised", site, _d(wire, ma[1]))
+            want = mb[1] if k != 2 else _drop_parent(mb[1])
+            if not deep_same(ma[1], want):
+                return ("wrapped_recursion_differs", site, _d(wire, ma[1], want))
+            ea, eb = attempt(lambda: typelib.codec(cls).decode(typelib.codec(cls).encode(a[1]))), None
+            if not ea[0] or ea[1] != a[1]:
+                return ("wrapped_recursion_codec_roundtrip", site, _d(wire, ea))
+        return None
+
+    return Cond("recwrap", [(f"c{i}", int) for i in range(20)], body, mode="E3", timeout=timeout)
+
+
+def _drop_parent(m):
+    return {"v": m["v"], "kids": [_drop_parent(k) for k in m["kids"]]}
+
+
 def make_sym(base, kind, depth, timeout):
     """E1: W(T) vs T at the root on an arbitrary symbolic input."""
     from typelib import unmarshals
@@ -265,6 +392,8 @@ def conditions(tier, seed):
         for pos in POSITIONS:
             out.append(make_chain(base, pos, maxlen, to))
         out.append(make_origin(base, to))
+    out.append(make_refexpr(to))
+    out.append(make_recwrap(to))
     for base in ("int", "list[int]", "Point", "WPoint"):
         for kind in wrapmod.WRAPPERS:
             out.append(make_sym(base, kind, 1 if tier == "quick" else 2, to))
